@@ -235,6 +235,12 @@ impl Board {
         self.position_info.uncount_current_position(self.turn)
     }
 
+    /// Registers the current placement as a position in which `side_to_move` is to
+    /// move, for callers that pass the turn on only after a move has been recorded.
+    pub fn count_position_with_side_to_move(&mut self, side_to_move: Color) -> u8 {
+        self.position_info.count_current_position(side_to_move)
+    }
+
     pub fn max_seen_position_count(&self) -> u8 {
         self.position_info.max_seen_position_count()
     }
